@@ -110,7 +110,10 @@ func BuildAspects(o *Chain) []Aspect {
 		offer = offer.AddAmount(sdk.NewDecFromInt(offer.Amount).Mul(d("0.003")).Ceil().TruncateInt())
 		os := []Step{ms("liquidity.limit", liquiditytypes.NewMsgLimitOrder(AppSwap, U("u6"), 1, liquiditytypes.OrderDirectionBuy, offer, p.BaseCoinDenom, price, amt, time.Hour)),
 			ms("liquidity.deposit", liquiditytypes.NewMsgDeposit(AppSwap, U("u5"), 1, sdk.NewCoins(coin("uasset1", 9_000_001), coin("uasset2", 9_000_001))))}
-		out = append(out, Aspect{Name: "order", Items: append(blk(6, os...), blk(6)...)})
+		// second block: cancel everything one trader has resting (walks the orders-by-orderer index)
+		second := []Step{ms("liquidity.cancelall", liquiditytypes.NewMsgCancelAllOrders(AppSwap, U("u1"), []uint64{})),
+			ms("liquidity.cancelall", liquiditytypes.NewMsgCancelAllOrders(AppSwap, U("u2"), []uint64{}))}
+		out = append(out, Aspect{Name: "order", Items: append(blk(6, os...), blk(6, second...)...)})
 	}
 
 	// auctionsV2: bid on the first Dutch auction, new limit bid
